@@ -138,7 +138,7 @@ impl PipeState {
                 }
                 None => {
                     let base = seg.enq_ns.max(last);
-                    match &seg.gate {
+                    ms_ceil(match &seg.gate {
                         Gate::Now => base,
                         Gate::Delay { ns } => base.saturating_add(*ns),
                         Gate::Abs { ns } => base.max(*ns),
@@ -146,7 +146,7 @@ impl PipeState {
                             Some(te) => base.max(*te).saturating_add(*ns),
                             None => u64::MAX,
                         },
-                    }
+                    })
                 }
             };
             last = r;
@@ -276,7 +276,20 @@ impl ClientEnd {
     }
 }
 
+/// tokio's timers fire on millisecond boundaries; availability times are rounded up accordingly so
+/// that what the oracles read is what actually happens
+fn ms_ceil(ns: u64) -> u64 {
+    if ns == u64::MAX {
+        return ns;
+    }
+    ns.div_ceil(1_000_000).saturating_mul(1_000_000)
+}
+
 fn resolve(gate: &Gate, base: u64, world: &W, waker: &Waker) -> Option<u64> {
+    resolve_raw(gate, base, world, waker).map(ms_ceil)
+}
+
+fn resolve_raw(gate: &Gate, base: u64, world: &W, waker: &Waker) -> Option<u64> {
     match gate {
         Gate::Now => Some(base),
         Gate::Delay { ns } => Some(base.saturating_add(*ns)),
